@@ -46,6 +46,9 @@ type DecOpts struct {
 	// field id the schema-driven parse reads (kinds: ftype, fid, strlen, etype,
 	// count, ktype, vtype).
 	OnPos func(kind string, off int)
+	// IgnoreRequired: lacking required fields are recorded in Missing but do not reject the message
+	// (used to read back encodings of values holding nil pointers to structs with required fields).
+	IgnoreRequired bool
 }
 
 type decoder struct {
@@ -78,7 +81,7 @@ func Decode(s *Struct, b []byte, prior *Val, opts DecOpts) *DecResult {
 		return res
 	}
 	res.N = n
-	if len(res.Missing) > 0 {
+	if len(res.Missing) > 0 && !opts.IgnoreRequired {
 		res.Err = ERequired
 		return res
 	}
